@@ -23,17 +23,34 @@ A row entry is `some r` (rank `r`) or `none` (NaN); all entry facts are `row[a -
 
 /-! ## Wrong data type -/
 
-/-- an instance whose `data_type` is not the one the converter expects is rejected -/
+/-- each of the FIVE converters insists on its own `data_type` string — the categorical converter included
+(`if instance.data_type != "cat": raise ValueError`) -/
+theorem C19_expected :
+    PrefKind.expected .soc = some "soc" ∧ PrefKind.expected .soi = some "soi" ∧
+    PrefKind.expected .toc = some "toc" ∧ PrefKind.expected .toi = some "toi" ∧
+    PrefKind.expected .cat = some "cat" := ⟨rfl, rfl, rfl, rfl, rfl⟩
+
+/-- an instance whose `data_type` is not the one the converter expects is rejected (all five kinds:
+`kind.expected` is `some _` for every kind by `C19_expected`) -/
 theorem C19_wrong_type (kind : PrefKind) (mode : TieMode) (inst : PrefInst) (t : String)
     (hk : kind.expected = some t) (ht : inst.dataType ≠ t) :
     ∃ e, convRows kind mode inst = .error e :=
   conv_wrong_type kind mode inst t hk ht
 
-/-- Remark: the categorical converter performs no data-type check at all (`PrefKind.expected .cat = none`),
-so for it there is nothing to reject: the result does not depend on `dataType`. -/
-theorem C19_cat_ignores_type (mode : TieMode) (inst : PrefInst) (s : String) :
-    convRows .cat mode { inst with dataType := s } = convRows .cat mode inst :=
-  conv_cat_ignores_type mode inst s
+/-- the same without the side condition on `expected`, and with the exception named: for EVERY kind
+(`kind.typeName` = "soc" / "soi" / "toc" / "toi" / "cat") and every tie-breaker, an instance of another data
+type raises the `ValueError`, whatever its orders are (the check comes first) -/
+theorem C19_wrong_type_all (kind : PrefKind) (mode : TieMode) (inst : PrefInst)
+    (ht : inst.dataType ≠ kind.typeName) :
+    convRows kind mode inst = .error "ValueError: wrong data type" :=
+  conv_wrong_type_all kind mode inst ht
+
+/-- conversely the data-type check is the ONLY use of `data_type`: with the right type the result is that of
+the loop over the orders -/
+theorem C19_right_type (kind : PrefKind) (mode : TieMode) (inst : PrefInst)
+    (ht : inst.dataType = kind.typeName) :
+    convRows kind mode inst = convLoop kind mode inst.m 0 inst.orders :=
+  conv_right_type kind mode inst ht
 
 /-! ## One row per voter, each order repeated `multiplicity` times -/
 
@@ -194,9 +211,12 @@ example : classBase [[2, 3], [1]] 1 = 3 := rfl
 example : convRows .toc .first exInst = .error "ValueError: wrong data type" := rfl
 example : convRows .soc .accept exInst = .error "ValueError: wrong data type" := rfl
 example : PrefKind.expected .toc = some "toc" ∧ exInst.dataType ≠ "toc" := by decide
--- the categorical converter accepts any data type
-example : ∃ rows, convRows .cat .accept exInst = .ok rows := ⟨_, rfl⟩
-example : ∃ rows, convRows .cat .accept { exInst with dataType := "soc" } = .ok rows := ⟨_, rfl⟩
+example : PrefKind.typeName .toc = "toc" ∧ exInst.dataType ≠ PrefKind.typeName .toc := by decide
+-- the categorical converter now checks the data type too: "toi" and "soc" are rejected, "cat" is accepted
+example : convRows .cat .accept exInst = .error "ValueError: wrong data type" := rfl
+example : convRows .cat .accept { exInst with dataType := "soc" } = .error "ValueError: wrong data type" := rfl
+example : PrefKind.expected .cat = some "cat" ∧ exInst.dataType ≠ "cat" := by decide
+example : ∃ rows, convRows .cat .accept { exInst with dataType := "cat" } = .ok rows := ⟨_, rfl⟩
 
 -- toi, all three tie-breakers, on `exInst` (m = 4, orders `2=3>1` twice and `4>1=3` once)
 example : convRows .toi .accept exInst =
@@ -211,7 +231,7 @@ example : convRows .toc .first { exInst with dataType := "toc", orders := [([[3,
     .ok [[some 3, some 1, some 2, some 4], [some 3, some 1, some 2, some 4]] := by
   pf_eval
 -- categorical: the empty class is skipped and does not shift later ranks
-example : convRows .cat .accept { exInst with orders := [([[2, 3], [], [1]], 2)] } =
+example : convRows .cat .accept { exInst with dataType := "cat", orders := [([[2, 3], [], [1]], 2)] } =
     .ok [[some 3, some 1, some 1, none], [some 3, some 1, some 1, none]] := rfl
 -- soi, soc
 example : convRows .soi .first { exInst with dataType := "soi", orders := [([[2], [1]], 2), ([[4]], 1)] } =
